@@ -792,6 +792,32 @@ theorem elab_intrinsic_call_exact {Γ : Env} {dbg : Bool} {v n : Nat} {user : Li
     have := hu s (List.mem_of_getElem? hs)
     omega
 
+/-! ## the subscript tables (re-extracted from the source on every run) say what the language says -/
+
+/-- **Index types of resources**: buffers are indexed by a `uint`, 2D textures by a `uint2`, 2D texture arrays and 3D
+    textures by a `uint3` (the widths `parse_expr_unchecked` uses, as re-extracted into `Gen.ElabTables`) -/
+theorem resource_index_widths :
+    RsslVerif.Gen.ElabTables.subscriptIndexWidth.lookup "Buffer" = some 1 ∧
+    RsslVerif.Gen.ElabTables.subscriptIndexWidth.lookup "RWBuffer" = some 1 ∧
+    RsslVerif.Gen.ElabTables.subscriptIndexWidth.lookup "StructuredBuffer" = some 1 ∧
+    RsslVerif.Gen.ElabTables.subscriptIndexWidth.lookup "RWStructuredBuffer" = some 1 ∧
+    RsslVerif.Gen.ElabTables.subscriptIndexWidth.lookup "Texture2D" = some 2 ∧
+    RsslVerif.Gen.ElabTables.subscriptIndexWidth.lookup "RWTexture2D" = some 2 ∧
+    RsslVerif.Gen.ElabTables.subscriptIndexWidth.lookup "Texture2DArray" = some 3 ∧
+    RsslVerif.Gen.ElabTables.subscriptIndexWidth.lookup "RWTexture2DArray" = some 3 ∧
+    RsslVerif.Gen.ElabTables.subscriptIndexWidth.lookup "Texture3D" = some 3 ∧
+    RsslVerif.Gen.ElabTables.subscriptIndexWidth.lookup "RWTexture3D" = some 3 := by decide
+
+/-- **Elements of resources**: exactly the `RW…` resources give a writable element, every other subscriptable resource gives
+    a const element (`get_type(ArraySubscript)`, as re-extracted into `Gen.ElabTables`) -/
+theorem resource_element_constness :
+    (∀ k ∈ RsslVerif.Gen.ElabTables.subscriptReadWrite, k.startsWith "RW" = true) ∧
+    (∀ k ∈ RsslVerif.Gen.ElabTables.subscriptReadOnly, k.startsWith "RW" = false) ∧
+    (∀ k ∈ ["Buffer", "StructuredBuffer", "Texture2D", "Texture2DArray", "Texture3D"],
+      k ∈ RsslVerif.Gen.ElabTables.subscriptReadOnly) ∧
+    (∀ k ∈ ["RWBuffer", "RWStructuredBuffer", "RWTexture2D", "RWTexture2DArray", "RWTexture3D"],
+      k ∈ RsslVerif.Gen.ElabTables.subscriptReadWrite) := by decide +kernel
+
 /-! ## what the judgment says about the new nodes (consequences of `HasType`) -/
 
 /-- a typed swizzle selects at least one component, and only components its operand has -/
